@@ -25,6 +25,8 @@ def build(rng, facts, name):
     b.knew("k", spec, kp, kn, exact)
     shape, vals = dataset(rng, f); b.meta = {"shape": shape}
     for v in vals: b.kadd("k", v, rng.choice([None, None, 2.0, 0.5, 3.0]))
+    if rng.random() < 0.3:              # weightless values far outside the data: accepted, and they move nothing
+        b.kadd("k", 31337.5, 0.0); b.kadd("k", -31337.5, 0.0)
     # history: merge / copy / clear / decode
     h = rng.choice(["none", "merge", "copy", "clear-refill", "decode"])
     if h == "merge" and rng.random() < 0.3:
